@@ -1,16 +1,17 @@
 #!/bin/sh
-# seedtest.sh <ID> [tier] [NAME]: copy the seed from the scratch worktree into /verif/seeded/<NAME>/ (if present),
-# apply its patch to /repo, run the check, and always revert /repo.
+# seedtest.sh <ID> [tier] [NAME]: copy the seed from its scratch worktree into /verif/seeded/<NAME>/ (if present),
+# apply its patch to a scratch worktree of /repo (never to /repo itself), run the check against that worktree
+# (VERIF_REPO), and restore the committed evidence file afterwards.
 ID="$1"; TIER="${2:-quick}"; NAME="${3:-$ID}"
 SRC=/tmp/seedwt/$NAME/seed_out
 DST=/verif/seeded/$NAME
+WT=/tmp/seedtest-wt-$NAME
 mkdir -p "$DST"
 [ -d "$SRC" ] && cp "$SRC"/patch.diff "$SRC"/demo_test.go "$SRC"/meta.json "$DST"/ 2>/dev/null
 cd /repo || exit 2
-if ! git diff --quiet; then echo "/repo dirty"; exit 2; fi
-git apply --check "$DST/patch.diff" || { echo "patch does not apply"; exit 2; }
-git apply "$DST/patch.diff"
+git worktree add -q --detach "$WT" HEAD || exit 2
+( cd "$WT" && git apply "$DST/patch.diff" ) || { echo "patch does not apply"; git worktree remove --force "$WT"; exit 2; }
 echo "== check $ID ($TIER) with seeded patch $NAME"
-/verif/verif check "$ID" --tier "$TIER" 2>&1 | grep -v conda | grep -E "^(VIOLATION|OK|INCONCLUSIVE|KNOWN)|harness=|^  [a-z-]+:" | cut -c1-400 | head -12
-git checkout -- .
-git status --short | head -3
+VERIF_REPO="$WT" /verif/verif check "$ID" --tier "$TIER" 2>&1 | grep -v conda | grep -E "^(VIOLATION|OK|INCONCLUSIVE|KNOWN)|harness=|^  [a-z-]+:" | cut -c1-400 | head -12
+git worktree remove --force "$WT"
+cd /verif && git checkout -- "evidence/$ID.json" 2>/dev/null
